@@ -610,7 +610,7 @@ class Factoriser:
                         return None
                     hit = one
                 used.append(hit)
-            if sorted(used) == sorted(self.slots):
+            if sorted(used) == sorted(self.slots) and self.no_wrap(inner if k == "bin" else nd):
                 self.P_factors = used
                 return "P"
         return None
@@ -649,6 +649,26 @@ class Factoriser:
                 return False
             used.append(one)
         return sorted(set(used)) == sorted(self.slots)
+
+    def no_wrap(self, x):
+        """no multiplication or narrowing cast inside the product can wrap for card-or-blank slots (in a build
+        without overflow checks a wrapped partial product would silently be a different key)"""
+        def ub(y):
+            if y[0] == "bin" and y[1] == "Mul":
+                a_, b_ = ub(y[2]), ub(y[3])
+                if a_ is None or b_ is None:
+                    return None
+                r_ = a_ * b_
+                t_ = ty_of(y)
+                return r_ if (t_ in INT_BITS and r_ < (1 << INT_BITS[t_])) else None
+            if y[0] == "cast" and y[1][0] == "bin" and y[1][1] == "Mul":
+                r_ = ub(y[1])
+                t_ = ty_of(y)
+                return r_ if (r_ is not None and t_ in INT_BITS and r_ < (1 << INT_BITS[t_])) else None
+            if y[0] == "c" and y[1] == 1:
+                return 1
+            return upper_bound(self.bv, y, self)
+        return ub(x) is not None
 
     def flat_mul(self, x, out):
         if x[0] == "bin" and x[1] == "Mul":
@@ -728,7 +748,9 @@ def premise_factor(ctx, rule="F", strict_flush=True):
                     okb = False
                 else:
                     ub *= u
-            rep.ob(rule + ".product-no-overflow", "mul L%s #%d" % (o.line, nmul), okb and ub < (1 << 32), "the prime product can overflow u32 (bound %s)" % (ub if okb else "unknown"), "%s line %s" % (pdb.where(o.fn), o.line))
+            mty = ty_of((o.detail or [None])[0]) if o.detail else None
+            mbits = INT_BITS.get(mty, 32)
+            rep.ob(rule + ".product-no-overflow", "mul L%s #%d" % (o.line, nmul), okb and ub < (1 << mbits), "the prime product can overflow %s (bound %s)" % (mty or "u32", ub if okb else "unknown"), "%s line %s" % (pdb.where(o.fn), o.line))
     # residual panic obligations (table indexes) over M/F/P
     robs = []
     for o in sm.obligations:
